@@ -14,6 +14,12 @@ package sem
 //                             order is empty.  The order is forced through the gate hook
 //                             verifGate("sem.resize") when the tree has it (c17_gate_test.go), else
 //                             it is provoked with GOMAXPROCS(1) (the newest goroutine runs first).
+//   cap values at and above maxCapacity (maxCapacity-1, maxCapacity, maxCapacity+1, 2e9) occur in the
+//   random histories and in the TLC cases (profile BoundaryFirst of specs/ConnCap.tla, mapped to the
+//   real values by the driver).  Every history / case ends at a barrier (nothing held, no acquirer
+//   left) at which every SetMaxCount call must have completed: c17AwaitResizes decides "never" from
+//   goroutine dumps (event rzstuck), then c17Probe checks that exactly the last cap is obtainable.
+//   TestVerifC17SemInitChild - NewSem with a cap around maxCapacity, in a process of its own.
 // The harness never judges: it logs, TLC validates the log against the contract.
 
 import (
@@ -223,8 +229,9 @@ var c17Leaked int
 // c17AwaitResizes is called at a barrier: every token has been given back (the Release calls have
 // returned), no acquirer is left, the gate is open.  Every SetMaxCount call must complete now.  A call
 // is declared stuck ("never completes") when its done channel is open and ALL background goroutines of
-// SetMaxCount calls are blocked inside the semaphore / behind each other, none runnable, in two
-// goroutine dumps in a row: with nothing held and nobody running nothing can ever wake them.  (Only if
+// SetMaxCount calls (there is at least one that was not given up before) are blocked inside the
+// semaphore / behind each other, none runnable, in two goroutine dumps in a row: with nothing held and
+// nobody running nothing can ever wake them.  (Only if
 // the goroutines cannot be told from the dump the generous deadline decides.)  Returns the number of
 // calls declared stuck.
 func c17AwaitResizes(g *c17Log, dones []chan struct{}, ids []int) int {
@@ -248,7 +255,7 @@ func c17AwaitResizes(g *c17Log, dones []chan struct{}, ids []int) int {
 		}
 		how := ""
 		blocked, active := c17Tuners()
-		if active == 0 && blocked == c17Leaked+len(p) {
+		if active == 0 && blocked > c17Leaked {
 			if quietDumps++; quietDumps >= 2 {
 				how = "barrier"
 			}
@@ -266,7 +273,9 @@ func c17AwaitResizes(g *c17Log, dones []chan struct{}, ids []int) int {
 			for _, i := range p {
 				g.rzstuck(ids[i], how)
 			}
-			c17Leaked += len(p)
+			if how == "barrier" {
+				c17Leaked = blocked
+			}
 			return len(p)
 		}
 		time.Sleep(5 * time.Millisecond)
@@ -349,6 +358,11 @@ func TestVerifC17SemTrace(t *testing.T) {
 			if hold {
 				caps[i] = 1 + rng.Intn(cap0) // never above the initial cap: the bound of the contract is the tightest
 			}
+			if !hold && rng.Intn(5) == 0 {
+				// a value at or above what the underlying weighted semaphore can hold (maxConnections is a
+				// uint32): just below, at, just above, far above maxCapacity; usually a small value follows
+				caps[i] = []int{int(maxCapacity) - 1, int(maxCapacity), int(maxCapacity) + 1, 2_000_000_000}[rng.Intn(4)]
+			}
 			if rng.Intn(4) == 0 || (hold && rng.Intn(4) == 0) {
 				// a call with the value already configured (what every reload of an HTTPServer that
 				// leaves maxConnections alone does)
@@ -375,11 +389,14 @@ func TestVerifC17SemTrace(t *testing.T) {
 			}
 		}
 		var dwg sync.WaitGroup
+		var dones []chan struct{}
+		var ids []int
 		final := cap0
 		for i, n := range caps {
 			time.Sleep(time.Duration(gaps[i]) * time.Microsecond)
 			id := g.rz(n)
 			done := s.SetMaxCount(int64(n))
+			dones, ids = append(dones, done), append(ids, id)
 			final = n
 			if !overlap && c17WaitDone(done, c17Patience()) {
 				g.rzdone(id)
@@ -408,8 +425,11 @@ func TestVerifC17SemTrace(t *testing.T) {
 			g.stuck(hi)
 			break
 		}
-		// nothing is held any more: every resize completes; if not the probe will find the semaphore stuck
-		c17WaitGroup(&dwg, c17Patience())
+		// nothing is held any more, no acquirer is left: every resize completes (barrier)
+		if c17AwaitResizes(g, dones, ids) > 0 {
+			break
+		}
+		c17WaitGroup(&dwg, c17Patience()) // (the completions are in the log)
 		c17Probe(g, s, final)
 	}
 }
@@ -603,6 +623,7 @@ func TestVerifC17SemOverlap(t *testing.T) {
 		allServed := make(chan struct{})
 		go func() { wwg.Wait(); close(allServed) }()
 		deadline := time.Now().Add(c17Patience())
+		starved := false
 		for served := false; !served; {
 			select {
 			case <-allServed:
@@ -623,7 +644,7 @@ func TestVerifC17SemOverlap(t *testing.T) {
 				hmu.Unlock()
 				if h == 0 && time.Now().After(deadline) {
 					g.stuck(0) // everything was given back and a waiter is still not served
-					served = true
+					served, starved = true, true
 				}
 			}
 		}
@@ -633,7 +654,12 @@ func TestVerifC17SemOverlap(t *testing.T) {
 			s.Release()
 		}
 		hmu.Unlock()
-		c17WaitGroup(&dwg, c17Patience())
+		// barrier: every token is back, every waiter was served and gave its token back, the gate is open
+		if starved || c17AwaitResizes(g, dones, ids) > 0 {
+			c17InstallGate(nil)
+			continue
+		}
+		c17WaitGroup(&dwg, c17Patience()) // (the completions are in the log)
 		final := cap0
 		if len(rzs) > 0 {
 			final = vx.Int(rzs[len(rzs)-1])
@@ -669,4 +695,52 @@ func TestVerifC17SemPanicChild(t *testing.T) {
 	}
 	ok1, ok2 := c17WaitDone(d1, 20*time.Second), c17WaitDone(d2, 20*time.Second)
 	w.Raw(vx.M{"k": "survived", "done1": ok1, "done2": ok2})
+}
+
+// TestVerifC17SemInitChild: a Semaphore created with a cap around maxCapacity (VERIF_C17_INIT), a few
+// tokens taken and given back, then resized to 2 with nothing held: the change must be applied and
+// exactly 2 tokens must be obtainable afterwards.  Runs in a process of its own (x/sync panics when
+// its counter goes below zero); the driver reads the records and the output.
+func TestVerifC17SemInitChild(t *testing.T) {
+	if vx.EnvInt("VERIF_C17_CHILD", 0) != 1 {
+		t.Skip("runs only as a child process of /verif/check")
+	}
+	w := vx.NewWriter(t, "VERIF_OUT")
+	defer w.Close()
+	init := vx.EnvInt("VERIF_C17_INIT", int(maxCapacity))
+	held := vx.EnvInt("VERIF_C17_HELD", 2)
+	s := NewSem(uint32(init))
+	w.Raw(vx.M{"k": "created", "cap": init})
+	for i := 0; i < held; i++ {
+		s.Acquire()
+	}
+	for i := 0; i < held; i++ {
+		s.Release() // (a panic ends the process here)
+	}
+	w.Raw(vx.M{"k": "released", "held": held})
+	g := &c17Log{w: w}
+	done := s.SetMaxCount(2)
+	how := ""
+	if n := c17AwaitResizes(g, []chan struct{}{done}, []int{1}); n > 0 {
+		how = "barrier/deadline: the background goroutine of SetMaxCount is blocked inside the semaphore"
+		w.Raw(vx.M{"k": "end", "done": false, "probe": false, "how": how})
+		return
+	}
+	// exactly two tokens
+	got, what := 0, ""
+	for i := 0; i < 3; i++ {
+		d := 10 * time.Second
+		if i == 2 {
+			d = 50 * time.Millisecond
+		}
+		ctx, cancel := context.WithTimeout(context.Background(), d)
+		if s.AcquireWithContext(ctx) == nil {
+			got++
+		}
+		cancel()
+	}
+	if got != 2 {
+		what = fmt.Sprintf("%d tokens can be taken, the cap is 2", got)
+	}
+	w.Raw(vx.M{"k": "end", "done": true, "probe": got == 2, "what": what})
 }
